@@ -158,6 +158,7 @@ func cmdGen(args []string) {
 			NRes:     p.NRes,
 			Listener: rng.Intn(100) < p.Listener,
 			LS:       63,
+			Generic:  p.Generic,
 			Probe:    p.Probe && !p.RandListener,
 			Sweep:    p.Sweep,
 			Shape:    p.Shape,
